@@ -31,7 +31,8 @@ RULE = ("schedule = which thread runs at each yield point; yield points are ever
         "once; in (b) every socket is closed exactly once or belongs to an idle pooled client, and no two threads "
         "did I/O on one socket at the same time. Non-trivial: a pre-emption occurred inside a pool / pooled-client "
         "frame and another thread entered a pool method afterwards. A scripted wall clock that steps backwards between releases (readings 100 .. 50 .. 85, idle timeout 30). (h) the same pool driven through a HashClient(use_pooling=True) shared by the threads, the hash client's own code pre-empted as well (its failover bookkeeping is not judged, the pool behind it is). Configurations marked warn_error run with every warning turned into an error. shutdown (the server permits it) and version run next to ordinary calls. A pool that grew large: 1500 to 3000 (thorough 12 000) objects checked out at once come back and idle out together, or are cleared or destroyed."
-        + ' TCP keepalive configured and one of its socket options refused on an established connection; a creator that fails for one checkout, also one that has just found idle objects timed out. The large-pool part runs on a lock that reports a second acquire by its holder.')
+        + ' TCP keepalive configured and one of its socket options refused on an established connection; a creator that fails for one checkout, also one that has just found idle objects timed out. The large-pool part runs on a lock that reports a second acquire by its holder.'
+        + ' Operation ctxdd (round eighteen): what PooledClient.quit() does when the quit fails - the object destroyed inside the get_and_release block, the block left by the exception, the object destroyed once more silently - against a thread that holds, takes or returns another object.')
 MANIFEST = {
     "category": "exploration",
     "technique": "systematic schedule exploration with a harness-owned deterministic thread scheduler (bytecode-level yield points via sys.settrace): exhaustive enumeration of all schedules up to a pre-emption bound for the two-thread configurations, Hypothesis-drawn schedules for larger ones; invariant and end-state oracles",
@@ -87,7 +88,7 @@ class _ConstTime:
         return self.t
 
 
-OPS_A = ["gr", "gd", "ctx", "ctxfail", "ctxfail-release", "clear"]
+OPS_A = ["gr", "gd", "ctx", "ctxfail", "ctxfail-release", "ctxdd", "clear"]
 OPS_B = ["set", "get", "failget", "quit", "shutdown", "version"]
 
 
@@ -233,6 +234,17 @@ def run_case(case):
                                 try:
                                     with pool.get_and_release(destroy_on_fail=False):
                                         raise ValueError("boom")
+                                except ValueError:
+                                    pass
+                            elif op == "ctxdd":
+                                # what PooledClient.quit() does when the quit fails: the object is destroyed inside the block, the
+                                # block is left by the exception, and get_and_release destroys it once more (silently)
+                                try:
+                                    with pool.get_and_release(destroy_on_fail=True) as o:
+                                        try:
+                                            raise ValueError("boom")
+                                        finally:
+                                            pool.destroy(o)
                                 except ValueError:
                                     pass
                             elif op == "clear":
@@ -404,6 +416,11 @@ def bounded_cases(tier, seed):
                 conf["fail_recv"] = [0]
             confs.append(conf)
     # the pool is emptied while one thread waits for it and is used again by that thread and a third one
+    # an object destroyed twice by its holder (a failing quit) while another thread holds, takes or returns another one
+    for other in (["gr"], ["ctx"], ["gd"], ["gr", "gr"]):
+        for ms in (2, 3):
+            confs.append({"harness": "a", "threads": [["ctxdd"], other], "max_size": ms, "idle": 5})
+            confs.append({"harness": "a", "threads": [other, ["ctxdd", "gr"]], "max_size": ms, "idle": 0})
     confs.append({"harness": "a", "threads": [["clear"], ["gr"], ["gr"]], "max_size": 1, "idle": 0, "two_in_quick": True})
     confs.append({"harness": "a", "threads": [["clear", "gr"], ["ctx"], ["gd"]], "max_size": 1, "idle": 0})
     # a call that fails with the server's own refusal (the connection is fine) next to an ordinary call
